@@ -1,4 +1,5 @@
 mod frames;
+mod netfaults;
 mod registry;
 
 fn main() {
@@ -7,6 +8,7 @@ fn main() {
     match cmd.as_str() {
         "replay-registry" => rt.block_on(registry::replay()),
         "record-frames" => rt.block_on(frames::record()),
+        "netfaults" => rt.block_on(netfaults::run()),
         other => {
             eprintln!("unknown command {other:?}");
             std::process::exit(2);
